@@ -18,7 +18,8 @@ re-modelled.  Route:
 
 Main results: `rqs_identity_outside`, `rqs_knots`, `rqs_mem_interval`, `rqs_left`, `rqs_right`,
 `rqs_lawful`, `rqs_derivative_pos`, `rqs_ldAntisym`, `rqs_strictMono`, `rqs_hasDerivAt_interior`,
-and the non-vacuity instance `rqsWF_instance`.
+`rqs_identity_at_init`, `rqs_derivative_knot`, `rqs_hasDerivAt_knot` (C¹ at interior knots),
+`rqs_hasDerivAt`, `rqs_hasDerivAt_outside`, and the non-vacuity instance `rqsWF_instance`.
 -/
 open Gen RealInst Set
 
@@ -731,6 +732,173 @@ theorem rqs_hasDerivAt_interior (h : RqsWF p) {k : ℕ} (hk : k + 1 < p.x_pos.le
   exact transform_bin h ⟨hk, Or.inl ⟨hz.1, hz.2.le⟩⟩
 
 end main
+
+/-! ### identity at initialisation, C¹ at interior knots, derivative at every point -/
+section more
+variable {p : RationalQuadraticSpline ℝ}
+
+theorem binFwd_id {xk xk1 : ℝ} (hx : xk < xk1) (x : ℝ) : binFwd xk xk1 xk xk1 1 1 x = x := by
+  have hw := (sub_pos.mpr hx).ne'
+  have e : ∀ t : ℝ, rqD 1 1 1 t = 1 := fun t => by unfold rqD; ring
+  have e' : ∀ t : ℝ, rqN 1 1 t = t := fun t => by unfold rqN; ring
+  unfold binFwd
+  rw [div_self hw, e, e', div_one, mul_div_cancel₀ _ hw]; ring
+
+theorem binDer_id {xk xk1 : ℝ} (hx : xk < xk1) (x : ℝ) : binDer xk xk1 xk xk1 1 1 x = 1 := by
+  have hw := (sub_pos.mpr hx).ne'
+  have e : ∀ t : ℝ, rqD 1 1 1 t = 1 := fun t => by unfold rqD; ring
+  unfold binDer
+  dsimp only
+  rw [div_self hw, e, mul_one, div_one]; ring
+
+/-- the documented "identity at initialisation": with `y_pos = x_pos` and all knot derivatives
+equal to 1 (what the constructor's initial parameters unwrap to) `transform` is the identity -/
+theorem rqs_identity_at_init (h : RqsWF p) (hy : p.y_pos = p.x_pos)
+    (hd : ∀ d ∈ p.derivatives, d = 1) (x : ℝ) : p.transform x = x := by
+  by_cases hx : x < p.interval.1 ∨ p.interval.2 < x
+  · exact (rqs_identity_outside h hx).1
+  · rw [not_or, not_lt, not_lt] at hx
+    obtain ⟨k, hb⟩ := in_bounds_bin h hx.1 hx.2
+    have hk := hb.1
+    have hkd : k + 1 < p.derivatives.length := by rw [h.len_d]; exact hk
+    have d0 : nth p.derivatives k = 1 := by
+      rw [nth_eq (Nat.lt_of_succ_lt hkd)]; exact hd _ (List.getElem_mem _)
+    have d1 : nth p.derivatives (k + 1) = 1 := by
+      rw [nth_eq hkd]; exact hd _ (List.getElem_mem _)
+    rw [transform_bin h hb]
+    unfold fwdK
+    rw [hy, d0, d1]
+    exact binFwd_id (h.binOK hk).hx x
+
+theorem rqs_identity_at_init_inverse (h : RqsWF p) (hy : p.y_pos = p.x_pos)
+    (hd : ∀ d ∈ p.derivatives, d = 1) (x : ℝ) : p.inverse x = x := by
+  have := rqs_left h x
+  rwa [rqs_identity_at_init h hy hd x] at this
+
+theorem rqs_identity_at_init_derivative (h : RqsWF p) (hy : p.y_pos = p.x_pos)
+    (hd : ∀ d ∈ p.derivatives, d = 1) (x : ℝ) : p.derivative x = 1 := by
+  by_cases hx : x < p.interval.1 ∨ p.interval.2 < x
+  · exact (rqs_identity_outside h hx).2.2
+  · rw [not_or, not_lt, not_lt] at hx
+    obtain ⟨k, hb⟩ := in_bounds_bin h hx.1 hx.2
+    have hk := hb.1
+    have hkd : k + 1 < p.derivatives.length := by rw [h.len_d]; exact hk
+    have d0 : nth p.derivatives k = 1 := by
+      rw [nth_eq (Nat.lt_of_succ_lt hkd)]; exact hd _ (List.getElem_mem _)
+    have d1 : nth p.derivatives (k + 1) = 1 := by
+      rw [nth_eq hkd]; exact hd _ (List.getElem_mem _)
+    rw [derivative_bin h hb]
+    unfold derK
+    rw [hy, d0, d1]
+    exact binDer_id (h.binOK hk).hx x
+
+theorem binDer_left {xk xk1 yk yk1 dk dk1 : ℝ} (h : BinOK xk xk1 yk yk1 dk dk1) :
+    binDer xk xk1 yk yk1 dk dk1 xk = dk := by
+  have hy := (sub_pos.mpr h.hy).ne'
+  have hw := (sub_pos.mpr h.hx).ne'
+  unfold binDer rqD
+  dsimp only
+  rw [sub_self, zero_div]
+  simp only [mul_zero, add_zero, sub_zero, mul_one, zero_add]
+  field_simp
+
+theorem binDer_right {xk xk1 yk yk1 dk dk1 : ℝ} (h : BinOK xk xk1 yk yk1 dk dk1) :
+    binDer xk xk1 yk yk1 dk dk1 xk1 = dk1 := by
+  have hy := (sub_pos.mpr h.hy).ne'
+  have hw := (sub_pos.mpr h.hx).ne'
+  unfold binDer rqD
+  dsimp only
+  rw [div_self hw]
+  simp only [sub_self, mul_zero, add_zero, mul_one]
+  field_simp
+
+/-- at every knot the generated `derivative` reports the knot derivative parameter -/
+theorem rqs_derivative_knot (h : RqsWF p) {j : ℕ} (hj : j < p.x_pos.length) :
+    p.derivative (nth p.x_pos j) = nth p.derivatives j := by
+  have hn := h.two_le
+  cases j with
+  | zero =>
+    have hb : IsBin p.x_pos 0 (nth p.x_pos 0) := ⟨by omega, Or.inr ⟨rfl, rfl⟩⟩
+    rw [derivative_bin h hb]; exact binDer_left (h.binOK (by omega))
+  | succ k =>
+    have hb : IsBin p.x_pos k (nth p.x_pos (k + 1)) :=
+      ⟨hj, Or.inl ⟨nth_lt_nth h.x_inc (Nat.lt_succ_self k) hj, le_refl _⟩⟩
+    rw [derivative_bin h hb]; exact binDer_right (h.binOK hj)
+
+/-- **C¹ at interior knots**: the two neighbouring bin formulas have the same value `y_j` and the
+same slope `d_j` at `x_j`, so `transform` is differentiable there with derivative `d_j` -/
+theorem rqs_hasDerivAt_knot (h : RqsWF p) (j : ℕ) (hj0 : 0 < j) (hj : j + 1 < p.x_pos.length) :
+    HasDerivAt p.transform (nth p.derivatives j) (nth p.x_pos j) := by
+  obtain ⟨k, rfl⟩ := Nat.exists_eq_succ_of_ne_zero hj0.ne'
+  have hk : k + 1 < p.x_pos.length := by omega
+  have hokL := h.binOK hk
+  have hokR := h.binOK hj
+  have hTj : p.transform (nth p.x_pos (k + 1)) = nth p.y_pos (k + 1) := rqs_knots_nth h hk
+  -- left: bin k, ξ = 1
+  have hL : HasDerivWithinAt p.transform (nth p.derivatives (k + 1)) (Iic (nth p.x_pos (k + 1)))
+      (nth p.x_pos (k + 1)) := by
+    have hd := (binFwd_hasDerivAt hokL ⟨hokL.hx.le, le_refl _⟩).hasDerivWithinAt
+      (s := Iic (nth p.x_pos (k + 1)))
+    rw [binDer_right hokL] at hd
+    refine hd.congr_of_eventuallyEq ?_ ?_
+    · filter_upwards [self_mem_nhdsWithin, mem_nhdsWithin_of_mem_nhds (Ioi_mem_nhds hokL.hx)]
+        with z hz1 hz2
+      exact transform_bin h ⟨hk, Or.inl ⟨hz2, hz1⟩⟩
+    · rw [hTj, binFwd_right hokL]
+  -- right: bin k+1, ξ = 0
+  have hR : HasDerivWithinAt p.transform (nth p.derivatives (k + 1)) (Ici (nth p.x_pos (k + 1)))
+      (nth p.x_pos (k + 1)) := by
+    have hd := (binFwd_hasDerivAt hokR ⟨le_refl _, hokR.hx.le⟩).hasDerivWithinAt
+      (s := Ici (nth p.x_pos (k + 1)))
+    rw [binDer_left hokR] at hd
+    refine hd.congr_of_eventuallyEq ?_ ?_
+    · filter_upwards [self_mem_nhdsWithin, mem_nhdsWithin_of_mem_nhds (Iio_mem_nhds hokR.hx)]
+        with z hz1 hz2
+      rcases eq_or_lt_of_le (show nth p.x_pos (k + 1) ≤ z from hz1) with e | e
+      · rw [← e, hTj, binFwd_left]
+      · exact transform_bin h ⟨hj, Or.inl ⟨e, (show z < _ from hz2).le⟩⟩
+    · rw [hTj, binFwd_left]
+  have := hL.union hR
+  rwa [Iic_union_Ici, hasDerivWithinAt_univ] at this
+
+/-- strictly outside the interval `transform` has derivative 1, which is what `derivative` reports -/
+theorem rqs_hasDerivAt_outside (h : RqsWF p) {x : ℝ} (hx : x < p.interval.1 ∨ p.interval.2 < x) :
+    HasDerivAt p.transform 1 x ∧ p.derivative x = 1 := by
+  refine ⟨?_, (rqs_identity_outside h hx).2.2⟩
+  refine (hasDerivAt_id' x).congr_of_eventuallyEq ?_
+  rcases hx with hx | hx
+  · filter_upwards [Iio_mem_nhds hx] with z hz
+    exact (rqs_identity_outside h (Or.inl hz)).1
+  · filter_upwards [Ioi_mem_nhds hx] with z hz
+    exact (rqs_identity_outside h (Or.inr hz)).1
+
+/-- **the generated `derivative` is the derivative of the generated `transform` at every point
+strictly inside the interval**, interior knots included -/
+theorem rqs_hasDerivAt (h : RqsWF p) (x : ℝ) (hlo : p.interval.1 < x) (hhi : x < p.interval.2) :
+    HasDerivAt p.transform (p.derivative x) x := by
+  obtain ⟨k, hb⟩ := in_bounds_bin h hlo.le hhi.le
+  have hk := hb.1
+  rcases hb.2 with ⟨h1, h2⟩ | ⟨_, e⟩
+  · rcases eq_or_lt_of_le h2 with e | e
+    · -- `x` is the knot `k+1`; it is not the last one because `x < hi`
+      have hlast : k + 1 ≠ p.x_pos.length - 1 := by
+        intro hc; rw [e, hc, h.xN] at hhi; exact lt_irrefl _ hhi
+      have hj : k + 1 + 1 < p.x_pos.length := by omega
+      rw [e, rqs_derivative_knot h hk]
+      exact rqs_hasDerivAt_knot h (k + 1) (Nat.succ_pos k) hj
+    · exact (rqs_hasDerivAt_interior h hk h1 e).1
+  · rw [e, h.x0] at hlo; exact absurd hlo (lt_irrefl _)
+
+/-- everywhere except at the two interval ends -/
+theorem rqs_hasDerivAt_ne_ends (h : RqsWF p) (x : ℝ) (h1 : x ≠ p.interval.1)
+    (h2 : x ≠ p.interval.2) : HasDerivAt p.transform (p.derivative x) x := by
+  by_cases hx : x < p.interval.1 ∨ p.interval.2 < x
+  · obtain ⟨hd, e⟩ := rqs_hasDerivAt_outside h hx
+    rw [e]; exact hd
+  · rw [not_or, not_lt, not_lt] at hx
+    exact rqs_hasDerivAt h x (lt_of_le_of_ne hx.1 (Ne.symm h1)) (lt_of_le_of_ne hx.2 h2)
+
+end more
 
 /-! ### non-vacuity: a concrete 3-bin spline on `[-2,2]` -/
 
